@@ -129,15 +129,21 @@ def run(ctx):
     tmp = tempfile.mkdtemp(prefix='verif_c07_')
     try:
         engines = {}
+        gain = [0.6]
+
         def engine(bs):
-            if bs not in engines:
-                d = os.path.join(tmp, 'bs%d' % bs)
+            # two stub networks: ordinary output range, and a wide one (frame maxima from 6 on padding to > 100 on content:
+            # float32 softmax must be stabilised per frame)
+            if (bs, gain[0]) not in engines:
+                d = os.path.join(tmp, 'bs%d_g%s' % (bs, gain[0]))
                 os.makedirs(d, exist_ok=True)
-                engines[bs] = stubs.make_engine(d, batch_size=bs)[0]
-            return engines[bs]
-        alone = engine(1)
+                engines[(bs, gain[0])] = stubs.make_engine(d, batch_size=bs, gain=gain[0])[0]
+            return engines[(bs, gain[0])]
         m = 250 if ctx.quick() else 1200
         for _ in range(m):
+            gain[0] = rng.choice([0.6, 0.6, 5])
+            alone = engine(1)
+            ctx.count('stub_gain:%s' % gain[0])
             nlines = rng.randrange(0, 8)
             ws = [rng.choice([rng.randrange(1, 200), rng.randrange(200, 900)]) for _ in range(nlines)]
             r = rng.random()
@@ -152,7 +158,7 @@ def run(ctx):
             mode = rng.choice(['dense', 'sparse', 'tight', 'nologits'])
             perm = list(range(nlines))
             rng.shuffle(perm)
-            inp = dict(widths=ws, batch_size=bs, mode=mode, permutation=perm)
+            inp = dict(widths=ws, batch_size=bs, mode=mode, permutation=perm, stub_gain=gain[0])
             ctx.evaluations += 1
             kw = dict(sparse_logits=(mode == 'sparse'), tight_crop_logits=(mode == 'tight'), no_logits=(mode == 'nologits'))
             try:
@@ -160,6 +166,23 @@ def run(ctx):
             except Exception as e:
                 ctx.violation('engine-raises:' + type(e).__name__, 'process_lines raised %r' % (e,), inp)
                 continue
+            if mode == 'sparse' and perm:
+                # the WHOLE stored matrix (padding frames included): exactly the logits with posterior >= 1e-4, unchanged
+                _, lgd, _ = engine(bs).process_lines([lines[i] for i in perm], sparse_logits=False)
+                for pos in range(len(perm)):
+                    full = lg[pos].toarray() if sparse.issparse(lg[pos]) else np.asarray(lg[pos])
+                    z = np.asarray(lgd[pos], dtype=np.float64)
+                    if full.shape != z.shape:
+                        ctx.violation('sparse:shape', 'sparse and dense logits of the same list have different shapes', inp, [list(full.shape), list(z.shape)])
+                        continue
+                    zz = z - z.max(axis=1, keepdims=True)
+                    pr = np.exp(zz) / np.exp(zz).sum(axis=1, keepdims=True)
+                    keep = pr >= 1e-4
+                    near = (np.abs(pr - 1e-4) < 1e-6) | (z == 0)     # a logit that IS 0.0 cannot be told from a dropped one
+                    badm = (~near) & (((full != 0) != keep) | (keep & (np.abs(full - z) > 1e-4)))
+                    if badm.any():
+                        ctx.violation('sparse:whole-matrix', 'sparse storage does not keep exactly the logits with posterior >= 1e-4 (whole stored matrix, padding frames included)',
+                                      inp, dict(position=pos, stored_but_negligible=int(((full != 0) & ~keep & ~near).sum()), dropped_but_relevant=int(((full == 0) & keep & ~near).sum())))
             for pos, i in enumerate(perm):
                 # same engine budget (480 * batch_size) so that truncation of over-long lines is the same; for lines that fit
                 # into the smallest budget also compare with the batch-size-1 engine (independence of the batch size)
@@ -188,7 +211,9 @@ def run(ctx):
                     got = full[lo:hi]
                 if mode == 'sparse':
                     dense_ref = ref
-                    probs = softmax(l1[0], axis=1)[lo:hi]
+                    z = np.asarray(l1[0], dtype=np.float64)      # independent reference: per-frame softmax in float64
+                    z = z - z.max(axis=1, keepdims=True)
+                    probs = (np.exp(z) / np.exp(z).sum(axis=1, keepdims=True))[lo:hi]
                     keep = probs >= 1e-4
                     near = np.abs(probs - 1e-4) < 1e-6
                     bad = (~near) & (((got != 0) != keep) | (keep & (np.abs(got - dense_ref) > 1e-4)))
